@@ -161,6 +161,13 @@ def run(ctx):
             n_spec_bad += 1
             j = 0 if isinstance(s, str) else int(np.argmax(~close(got, s, rtol=1e-10)))
             key = f"{name}/closed-form"
+            spec_unevaluable = isinstance(s, str) or (np.isnan(s[j]) and np.isfinite(got[j]))
+            if spec_unevaluable:
+                # the documented form could not be evaluated on this case (e.g. it refers to an opaque quantity the harness can no longer
+                # read off the instance after a restructuring of the source): not a failing input, but the tie is broken
+                if not any(b.get("what", "").startswith(f"documented form of {name}") for b in out["broken"]):
+                    out["broken"].append({"kind": "correspondence", "what": f"documented form of {name} could not be evaluated on the harness inputs ({s if isinstance(s, str) else 'NaN'})"})
+                continue
             if not any(v["key"] == key for v in out["violations"]):
                 out["violations"].append({"key": key, "what": f"{name}.fsigma differs from its documented closed form: sigma={desc['sigma'][j]:.6g} z={desc['z']} -> code {got[j]!r} vs documented form {(s if isinstance(s, str) else s[j])!r}",
                                           "replay": {"kind": "c06", "case": desc, "element": j, "impl": got.tolist(), "spec": s if isinstance(s, str) else s.tolist()}})
